@@ -934,3 +934,48 @@ def inline_single_returns(node, by_pat, rect, depth=3, file=None):
                 return rec(subst(b[0]["e"], m), d - 1)
         return n
     return rec(node, depth)
+
+
+def inline_local_lambdas(fn):
+    """copy of fn's body in which calls of a local lambda whose body is `return expr;` (no captures written) are replaced by that
+    expression with the parameters bound to the arguments: `auto pick = [](double a, double b) { return f(a, b); }; .. pick(x, y) ..`
+    reads as `f(x, y)`"""
+    import copy
+    lams = {}
+
+    def dv(n):
+        if n.get("k") == "Decl":
+            for v in n.get("vars", []):
+                ini = strip_all(v.get("init") or {})
+                while isinstance(ini, dict) and ini.get("k") == "Construct" and len(ini.get("args", [])) == 1:
+                    ini = strip_all(ini["args"][0])
+                if isinstance(ini, dict) and ini.get("k") == "Lambda" and "d" in v:
+                    st = stmts_of(ini.get("body"))
+                    if len(st) == 1 and st[0].get("k") == "Return" and st[0].get("e") is not None and ini.get("params") is not None:
+                        lams[v["d"]] = (ini["params"], st[0]["e"])
+    walk(fn.get("body"), dv)
+    if not lams:
+        return fn.get("body")
+
+    def sub(n, m):
+        if isinstance(n, list):
+            return [sub(x, m) for x in n]
+        if not isinstance(n, dict):
+            return n
+        if n.get("k") == "Ref" and n.get("d") in m:
+            return copy.deepcopy(m[n["d"]])
+        return {k: sub(v, m) for k, v in n.items()}
+
+    def rec(n, depth=0):
+        if isinstance(n, list):
+            return [rec(x, depth) for x in n]
+        if not isinstance(n, dict):
+            return n
+        if n.get("k") == "OpCall" and n.get("op") == "()" and n.get("args") and depth < 4:
+            f = strip_all(n["args"][0])
+            if isinstance(f, dict) and f.get("k") == "Ref" and f.get("d") in lams and len(lams[f["d"]][0]) == len(n["args"]) - 1:
+                params, expr = lams[f["d"]]
+                m = {p["d"]: rec(a, depth + 1) for p, a in zip(params, n["args"][1:])}
+                return rec(sub(expr, m), depth + 1)
+        return {k: rec(v, depth) for k, v in n.items()}
+    return rec(fn.get("body"))
